@@ -346,6 +346,17 @@ func c20HdrTerm(h *types.Header, hash []byte) string {
 		vg.Hx(h.ConsensusHash), vg.Hx(h.AppHash), vg.Hx(h.LastResultsHash))
 }
 
+func c20TxBytes(txs types.Txs) (out [][]byte) {
+	for _, tx := range txs {
+		out = append(out, tx)
+	}
+	return
+}
+func c20IDStr(id types.BlockID) string { // BlockID.String() abbreviates the hashes
+	return fmt.Sprintf("%X:{total %d, hash %X}", []byte(id.Hash), id.PartSetHeader.Total, []byte(id.PartSetHeader.Hash))
+}
+func c20PSHTerm(p types.PartSetHeader) string { return vg.Tup(vg.Z(int64(p.Total)), vg.Hx(p.Hash)) }
+
 // light-block table entry; the fields the client never reads from a light block are left out
 func c20LBTerm(lb *types.LightBlock, withVals bool) string {
 	h := lb.Header
@@ -357,7 +368,7 @@ func c20LBTerm(lb *types.LightBlock, withVals bool) string {
 	}
 	ht := vg.Tup(vg.Z(h.Height), vg.Hx(h.Hash()), `""`, vg.Hx(h.DataHash), `""`,
 		vg.Hx(h.ConsensusHash), vg.Hx(h.AppHash), vg.Hx(h.LastResultsHash))
-	return vg.Tup(ht, vg.Hx(lb.Commit.Hash()), vg.HxL(vs))
+	return vg.Tup(ht, vg.Hx(lb.Commit.Hash()), vg.Tup(vg.Hx(lb.Commit.BlockID.Hash), c20PSHTerm(lb.Commit.BlockID.PartSetHeader)), vg.HxL(vs))
 }
 
 func (l *c20LC) term(withVals bool) string {
@@ -417,6 +428,7 @@ type c20Server struct {
 	block            *ctypes.ResultBlock
 	info             *ctypes.ResultBlockchainInfo
 	tx               *ctypes.ResultTx
+	search           *ctypes.ResultTxSearch
 	query            *ctypes.ResultABCIQuery
 	params           *ctypes.ResultConsensusParams
 	results          *ctypes.ResultBlockResults
@@ -436,6 +448,10 @@ func (s *c20Server) BlockchainInfo(ctx context.Context, min, max int64) (*ctypes
 }
 func (s *c20Server) Tx(ctx context.Context, hash []byte, prove bool) (*ctypes.ResultTx, error) {
 	return c20Wire(s.tx), nil
+}
+func (s *c20Server) TxSearch(ctx context.Context, query string, prove bool, page, perPage *int,
+	orderBy string) (*ctypes.ResultTxSearch, error) {
+	return c20Wire(s.search), nil
 }
 func (s *c20Server) ABCIQueryWithOptions(ctx context.Context, path string, data tmbytes.HexBytes,
 	opts rpcclient.ABCIQueryOptions) (*ctypes.ResultABCIQuery, error) {
@@ -567,7 +583,7 @@ func c20BlockTerm(b *types.Block) string {
 var c20BlockKinds = []string{"honest", "honest", "other-height-genuine", "tx-flip", "tx-flip+rehash", "tx-drop+rehash",
 	"tx-add+rehash", "tx-swap+rehash", "tx-swap", "hdr-apphash+reid", "hdr-apphash", "hdr-results+reid", "hdr-cons+reid",
 	"hdr-vals+reid", "hdr-time+reid", "hdr-height+reid", "hdr-height-beyond+reid", "hdr-lastblockid+reid",
-	"id-hash", "id-parts", "id-zero", "commit-sig", "commit-sig+rehash", "block-nil", "hdr-datahash-nil",
+	"id-hash", "id-parts", "id-parts-total", "id-parts-other-block", "id-zero", "commit-sig", "commit-sig+rehash", "block-nil", "hdr-datahash-nil",
 	"hdr-proposer-short+reid", "hdr-valhash-empty+idzero", "lc-cannot-verify", "fork-block"}
 
 func c20MutBlock(kind string, c *c20Chain, h int64, r *vg.Rand) (res *ctypes.ResultBlock, descr string) {
@@ -644,6 +660,12 @@ func c20MutBlock(kind string, c *c20Chain, h int64, r *vg.Rand) (res *ctypes.Res
 		res.BlockID.Hash = c20Flip(res.BlockID.Hash, r)
 	case "id-parts":
 		res.BlockID.PartSetHeader.Hash = c20Flip(res.BlockID.PartSetHeader.Hash, r)
+	case "id-parts-total": // only the number of parts is falsified
+		res.BlockID.PartSetHeader.Total += 1 + uint32(r.Intn(76))
+	case "id-parts-other-block": // the genuine part-set header of another block under this block's hash
+		o := c20OtherHeight(c, h, r)
+		res.BlockID.PartSetHeader = c.ids[o-1].PartSetHeader
+		descr = fmt.Sprintf("id-parts-other-block (part-set header of block %d)", o)
 	case "id-zero":
 		res.BlockID = types.BlockID{}
 	case "commit-sig", "commit-sig+rehash":
@@ -717,8 +739,9 @@ func c20BlockCases(t *testing.T, cs *vg.Cases, c *c20Chain, r *vg.Rand) {
 		}
 		cs.Add(id, "block/"+kind, kind != "honest",
 			vg.App("CBlock", oterm, vg.B(view.BlockID.ValidateBasic() == nil), vg.Hx(view.BlockID.Hash),
-				c20BlockTerm(view.Block), vg.B(run.relayed), vg.L(run.calls), vg.B(honest)),
-			fmt.Sprintf("chain#%d(n=%d) %s(height %d), server answers: %s; relayed=%v err=%q", c.idx, c.n, method, h, descr, run.relayed, run.err))
+				c20PSHTerm(view.BlockID.PartSetHeader), c20BlockTerm(view.Block), vg.B(run.relayed), vg.L(run.calls), vg.B(honest)),
+			fmt.Sprintf("chain#%d(n=%d) %s(height %d), server answers: %s; answer BlockID=%s (the verified commit of height %d is for %s); relayed=%v err=%q",
+				c.idx, c.n, method, h, descr, c20IDStr(view.BlockID), h, c20IDStr(c.ids[h-1]), run.relayed, run.err))
 	}
 }
 
@@ -726,7 +749,7 @@ func c20BlockCases(t *testing.T, cs *vg.Cases, c *c20Chain, r *vg.Rand) {
 
 var c20InfoKinds = []string{"honest", "honest-partial-store", "meta-hdr-apphash+reid", "meta-hdr-apphash", "meta-fork+reid",
 	"meta-nil", "meta-size", "meta-numtxs", "last-height", "meta-dropped", "metas-reversed", "empty", "meta-id-parts",
-	"meta-height-swap+reid", "meta-beyond+reid", "last-untrusted-by-lc"}
+	"meta-id-parts-total", "meta-height-swap+reid", "meta-beyond+reid", "last-untrusted-by-lc"}
 
 func c20InfoCases(t *testing.T, cs *vg.Cases, c *c20Chain, r *vg.Rand) {
 	for k, kind := range c20InfoKinds {
@@ -778,6 +801,8 @@ func c20InfoCases(t *testing.T, cs *vg.Cases, c *c20Chain, r *vg.Rand) {
 			res.BlockMetas = nil
 		case "meta-id-parts":
 			m.BlockID.PartSetHeader.Hash = c20Flip(m.BlockID.PartSetHeader.Hash, rr)
+		case "meta-id-parts-total":
+			m.BlockID.PartSetHeader.Total += 1 + uint32(rr.Intn(9))
 		case "meta-height-swap+reid":
 			m.Header.Height = c20OtherHeight(c, m.Header.Height, rr)
 			reid()
@@ -794,7 +819,7 @@ func c20InfoCases(t *testing.T, cs *vg.Cases, c *c20Chain, r *vg.Rand) {
 			_, err := cl.BlockchainInfo(context.Background(), min, max)
 			return err
 		})
-		var ms []string
+		var ms, ids []string
 		var hs []int64
 		for _, m := range view.BlockMetas {
 			if m == nil {
@@ -803,12 +828,13 @@ func c20InfoCases(t *testing.T, cs *vg.Cases, c *c20Chain, r *vg.Rand) {
 			}
 			hs = append(hs, m.Header.Height)
 			ms = append(ms, vg.Opt(true, vg.Tup(vg.B(m.BlockID.ValidateBasic() == nil), vg.Hx(m.BlockID.Hash),
-				c20HdrTerm(&m.Header, m.Header.Hash()))))
+				c20PSHTerm(m.BlockID.PartSetHeader), c20HdrTerm(&m.Header, m.Header.Hash()))))
+			ids = append(ids, c20IDStr(m.BlockID))
 		}
 		cs.Add(id, "info/"+kind, kind != "honest",
 			vg.App("CInfo", lc.term(false), vg.L(ms), vg.B(run.relayed), vg.L(run.calls), vg.B(honest)),
-			fmt.Sprintf("chain#%d(n=%d) BlockchainInfo(%d,%d), server answers metas of heights %v, falsification: %s (meta #%d); relayed=%v err=%q",
-				c.idx, c.n, min, max, hs, kind, pick, run.relayed, run.err))
+			fmt.Sprintf("chain#%d(n=%d) BlockchainInfo(%d,%d), server answers metas of heights %v with BlockIDs %v, falsification: %s (meta #%d); relayed=%v err=%q",
+				c.idx, c.n, min, max, hs, ids, kind, pick, run.relayed, run.err))
 	}
 }
 
@@ -939,7 +965,41 @@ func c20TxTerm(r *ctypes.ResultTx) string {
 var c20TxKinds = []string{"honest", "honest", "honest-noprove", "forged-noprove", "body-forged", "body-and-hash-forged",
 	"proof-of-other-tx", "hash-forged", "index-forged", "height-forged", "result-forged", "root-forged", "data-forged",
 	"aunt-forged", "aunt-dropped", "proof-index", "proof-total", "last-leaf-relabelled", "height-zero", "height-beyond",
-	"foreign-block-proof", "whole-answer-other-tx"}
+	"foreign-block-proof", "whole-answer-other-tx", "index-relabelled", "index-relabelled"}
+
+// Known finding F41.  An RFC-6962 inclusion proof fixes only the left/right shape of the path,
+// and the same shape occurs under other (index, total) pairs: every relabelling of the genuine
+// proof of transaction i (same leaf hash, same aunts) that still verifies against the root and
+// states ANOTHER index.  Nothing a light client verifies commits to the number of leaves.
+func c20Relabellings(txs types.Txs, i int) (out []merkle.Proof) {
+	p := txs.Proof(i)
+	for tot := int64(1); tot <= 2*int64(len(txs))+4; tot++ {
+		for ix := int64(0); ix < tot; ix++ {
+			if ix == int64(i) {
+				continue
+			}
+			q := merkle.Proof{Total: tot, Index: ix, LeafHash: p.Proof.LeafHash, Aunts: p.Proof.Aunts}
+			if q.Verify(p.RootHash, txs[i].Hash()) == nil {
+				out = append(out, q)
+			}
+		}
+	}
+	return
+}
+
+// the honest answer for transaction i of block h with Index and the proof's (Index, Total)
+// falsified coherently; ok = false when no relabelling exists (then the answer is the honest one)
+func (c *c20Chain) relabelledTx(h int64, i int, r *vg.Rand) (*ctypes.ResultTx, bool) {
+	res := c20Wire(c.honestTx(h, i))
+	qs := c20Relabellings(c.blocks[h-1].Data.Txs, i)
+	if len(qs) == 0 {
+		return res, false
+	}
+	q := qs[r.Intn(len(qs))]
+	res.Proof.Proof = q
+	res.Index = uint32(q.Index)
+	return res, true
+}
 
 func c20TxCases(t *testing.T, cs *vg.Cases, c *c20Chain, r *vg.Rand) {
 	var withTxs []int64
@@ -965,10 +1025,25 @@ func c20TxCases(t *testing.T, cs *vg.Cases, c *c20Chain, r *vg.Rand) {
 			txs = c.blocks[1].Data.Txs
 			i = len(txs) - 1
 		}
+		if kind == "index-relabelled" { // block 2 has >= 3 transactions: its last one can always be relabelled
+			h = 2
+			txs = c.blocks[1].Data.Txs
+			i = len(txs) - 1
+			if k%2 == 1 { // any transaction of the block that can be
+				for _, j := range rr.Perm(len(txs)) {
+					if len(c20Relabellings(txs, j)) > 0 {
+						i = j
+						break
+					}
+				}
+			}
+		}
 		res := c20Wire(c.honestTx(h, i))
 		prove := true
 		honest := kind == "honest"
 		switch kind {
+		case "index-relabelled":
+			res, _ = c.relabelledTx(h, i, rr)
 		case "honest-noprove":
 			prove = false
 			res.Proof = types.TxProof{}
@@ -1066,11 +1141,152 @@ func c20TxCases(t *testing.T, cs *vg.Cases, c *c20Chain, r *vg.Rand) {
 	}
 }
 
+// ---------------------------------------------------------------- TxSearch
+
+var c20SearchKinds = []string{"honest", "honest-one-block", "honest-empty", "honest-noprove", "forged-noprove", "body-forged",
+	"body-and-hash-forged", "hash-forged", "index-forged", "proof-of-other-tx", "height-forged", "height-zero", "height-beyond",
+	"aunt-forged", "data-forged", "nil-entry", "last-forged", "result-forged", "total-count-forged", "result-dropped",
+	"results-reordered", "index-relabelled"}
+
+func c20SearchCases(t *testing.T, cs *vg.Cases, c *c20Chain, r *vg.Rand) {
+	var withTxs []int64
+	var blocks []string
+	for h := int64(1); h <= c.n; h++ {
+		var txs [][]byte
+		for _, tx := range c.blocks[h-1].Data.Txs {
+			txs = append(txs, tx)
+		}
+		if len(txs) > 0 {
+			withTxs = append(withTxs, h)
+		}
+		blocks = append(blocks, vg.Tup(vg.Z(h), vg.HxL(txs)))
+	}
+	for k, kind := range c20SearchKinds {
+		id := cs.NextID()
+		if !cs.Want(id) {
+			continue
+		}
+		rr := r.Fork(uint64(7000 + k))
+		// the honest answer: the transactions of block 2 (it has >= 3), then those of another block, at most 7
+		res := &ctypes.ResultTxSearch{}
+		type at struct {
+			h int64
+			i int
+		}
+		var where []at
+		hs := []int64{2}
+		if o := withTxs[rr.Intn(len(withTxs))]; o != 2 && kind != "honest-one-block" {
+			hs = append(hs, o)
+		}
+		for _, h := range hs {
+			for i := range c.blocks[h-1].Data.Txs {
+				if len(res.Txs) < 7 {
+					res.Txs = append(res.Txs, c.honestTx(h, i))
+					where = append(where, at{h, i})
+				}
+			}
+		}
+		res.TotalCount = len(res.Txs)
+		res = c20Wire(res)
+		pick := rr.Intn(len(res.Txs))
+		m := res.Txs[pick]
+		txs := c.blocks[where[pick].h-1].Data.Txs
+		prove := true
+		honest := kind == "honest" || kind == "honest-one-block" || kind == "honest-empty"
+		note := ""
+		switch kind {
+		case "honest-empty":
+			res.Txs, res.TotalCount = nil, 0
+		case "honest-noprove", "forged-noprove":
+			prove = false
+			for _, x := range res.Txs {
+				x.Proof = types.TxProof{}
+			}
+			if kind == "forged-noprove" {
+				m.Tx = types.Tx("forged")
+			}
+		case "body-forged":
+			m.Tx = types.Tx("forged")
+		case "body-and-hash-forged":
+			m.Tx = types.Tx("forged")
+			m.Hash = m.Tx.Hash()
+		case "hash-forged":
+			m.Hash = c20Flip(m.Hash, rr)
+		case "index-forged":
+			m.Index += 1 + uint32(rr.Intn(3))
+		case "proof-of-other-tx":
+			m.Proof = c20Wire(c.honestTx(where[pick].h, (where[pick].i+1)%len(txs))).Proof
+		case "height-forged":
+			m.Height = c20OtherHeight(c, m.Height, rr)
+		case "height-zero":
+			m.Height = 0
+		case "height-beyond":
+			m.Height = c.n + 2
+		case "aunt-forged":
+			if len(m.Proof.Proof.Aunts) > 0 {
+				m.Proof.Proof.Aunts[0] = c20Flip(m.Proof.Proof.Aunts[0], rr)
+			} else {
+				m.Proof.Proof.Aunts = [][]byte{c20Sum([]byte("aunt"))}
+			}
+		case "data-forged":
+			m.Proof.Data = c20Flip(m.Proof.Data, rr)
+		case "nil-entry":
+			res.Txs[pick] = nil
+		case "last-forged": // every result but the last is genuine
+			pick = len(res.Txs) - 1
+			res.Txs[pick].Tx = types.Tx("forged")
+			res.Txs[pick].Hash = res.Txs[pick].Tx.Hash()
+		case "result-forged": // no header commits to a single DeliverTx result
+			m.TxResult.Code += 7
+			m.TxResult.Log = "forged"
+		case "total-count-forged": // nor to how many transactions match a query
+			res.TotalCount += 5
+		case "result-dropped":
+			res.Txs = append(res.Txs[:pick:pick], res.Txs[pick+1:]...)
+		case "results-reordered":
+			res.Txs[0], res.Txs[len(res.Txs)-1] = res.Txs[len(res.Txs)-1], res.Txs[0]
+		case "index-relabelled": // known finding F41, through TxSearch
+			for j, w := range where {
+				if x, ok := c.relabelledTx(w.h, w.i, rr); ok {
+					res.Txs[j], pick = x, j
+				}
+			}
+		}
+		lc := c20NewLC(c)
+		srv := &c20Server{search: res}
+		cl := c20Client(srv, lc, true)
+		view := c20Wire(res)
+		run := c20Call(lc, func() error {
+			_, err := cl.TxSearch(context.Background(), "tx.height>0", prove, nil, nil, "asc")
+			return err
+		})
+		var rs, human []string
+		for _, x := range view.Txs {
+			if x == nil {
+				rs = append(rs, "None")
+				human = append(human, "nil")
+				continue
+			}
+			rs = append(rs, vg.Opt(true, c20TxTerm(x)))
+			human = append(human, fmt.Sprintf("{hash=%X height=%d index=%d tx=%x proof{root=%X data=%x index=%d total=%d aunts=%d}}", []byte(x.Hash), x.Height,
+				x.Index, []byte(x.Tx), []byte(x.Proof.RootHash), []byte(x.Proof.Data), x.Proof.Proof.Index, x.Proof.Proof.Total, len(x.Proof.Proof.Aunts)))
+		}
+		var truth []string
+		for _, h := range hs {
+			truth = append(truth, fmt.Sprintf("block %d txs=%x", h, c20TxBytes(c.blocks[h-1].Data.Txs)))
+		}
+		cs.Add(id, "search/"+kind, !honest,
+			vg.App("CSearch", lc.term(false), vg.B(prove), vg.L(rs), vg.L(blocks), vg.B(run.relayed), vg.L(run.calls), vg.B(honest)),
+			fmt.Sprintf("chain#%d(n=%d) TxSearch(prove=%v), falsification: %s (result #%d)%s; answer: total_count=%d txs=%v; %v; relayed=%v err=%q",
+				c.idx, c.n, prove, kind, pick, note, view.TotalCount, human, truth, run.relayed, run.err))
+	}
+}
+
 // ---------------------------------------------------------------- ABCIQuery
 
 var c20QueryKinds = []string{"honest", "honest", "value-forged", "key-forged", "height-plus", "height-minus", "ops-none",
 	"ops-nil", "op-data-forged", "op-dropped", "code-error", "key-empty", "height-zero", "height-latest", "stale-proof",
-	"no-keypathfn", "bad-path", "absent-pathkey", "absent-rawkey", "absent-but-present", "value-stripped", "other-key-genuine"}
+	"no-keypathfn", "bad-path", "absent-pathkey", "absent-rawkey", "absent-but-present", "value-stripped", "other-key-genuine", "other-height-genuine"}
 
 func c20QueryCases(t *testing.T, cs *vg.Cases, c *c20Chain, r *vg.Rand) {
 	for k, kind := range c20QueryKinds {
@@ -1146,6 +1362,14 @@ func c20QueryCases(t *testing.T, cs *vg.Cases, c *c20Chain, r *vg.Rand) {
 		case "other-key-genuine":
 			o := keys[(sort.SearchStrings(keys, key)+1)%len(keys)]
 			res = c20Wire(c.honestQuery(h, store, o))
+			q = &res.Response
+		case "other-height-genuine": // the complete, genuine answer for this key at ANOTHER height (so labelled)
+			o := 1 + rr.Int63n(c.n-1)
+			if o == h {
+				o = h%(c.n-1) + 1
+			}
+			store, key, path = "acc", "alice", "/store/acc/key"
+			res = c20Wire(c.honestQuery(o, store, key))
 			q = &res.Response
 		}
 		lc := c20NewLC(c)
@@ -1407,6 +1631,7 @@ func TestVerifC20Client(t *testing.T) {
 		c20CommitCases(t, cs, c, r.Fork(4))
 		c20ValsCases(t, cs, c, r.Fork(5), k == 0)
 		c20TxCases(t, cs, c, r.Fork(6))
+		c20SearchCases(t, cs, c, r.Fork(11))
 		c20QueryCases(t, cs, c, r.Fork(7))
 		c20ParamsCases(t, cs, c, r.Fork(8))
 		c20ResultsCases(t, cs, c, r.Fork(9))
